@@ -130,6 +130,7 @@ def run_walk(cfg):
         try:
             o._compute_frame(Frame(), Co())
         except Exception as e:
+            symex.guard(e)
             return ('exc', '%s: %s' % (type(e).__name__, e))
         return ('ok', start, tl, segs)
 
@@ -195,6 +196,7 @@ def run_cover(cfg):
         try:
             out = o.compute_full(sc.sig(z3.IntVal(0), SInt(N)))
         except Exception as e:
+            symex.guard(e)
             return ('exc', '%s: %s' % (type(e).__name__, e))
         return ('ok', N, fr, out)
 
